@@ -31,6 +31,8 @@ type Query struct {
 	GroundModel string // candidate counter-model of the quantifier-free weakening
 	AnyOf   string // canary group: vacuous only if every member is refuted
 	Canary  bool // vacuity canary: goal is false and must NOT be proved
+	Pre     *Query // canary taken just before the same program point's assumptions: if that is refuted too the point is simply unreachable
+	PreOnly bool
 }
 
 type FuncCtx struct {
@@ -203,9 +205,10 @@ func (fx *FuncCtx) oblige1(st *State, kind, label, goal string, pos token.Pos, c
 	fx.queries = append(fx.queries, q)
 }
 
-func (fx *FuncCtx) canary(st *State, label string, pos token.Pos) {
+func (fx *FuncCtx) canary(st *State, label string, pos token.Pos) *Query {
 	q := &Query{Obl: strings.TrimPrefix(fx.pc.Path[len(modPath):]+"."+fx.key+"/vacuity["+label+"]", "/"), Kind: "vacuity", Hyps: st.hyps.list(), Goal: "false", Pos: fx.posStr(pos), Canary: true, fx: fx}
 	fx.queries = append(fx.queries, q)
+	return q
 }
 
 func (fx *FuncCtx) failf(format string, args ...any) {
